@@ -24,7 +24,7 @@ type c03Req struct {
 	SrcOther bool   `json:"src_other,omitempty"` // copy source in the other bucket
 	// SrcVersion: the copy source names the current version of the source object (?versionId=...)
 	SrcVersion bool `json:"src_version,omitempty"`
-	GW       int    `json:"gw"`
+	GW         int  `json:"gw"`
 }
 
 type c03Prog struct {
